@@ -63,7 +63,7 @@ var c05Fields = []c05Field{
 func init() {
 	oracles["C05"] = func(seed int64, n int, tier, work string) *oracleReport {
 		o := newOracleRun("C05", seed)
-		segs := []string{".", "..", "sub", "ref.yaml", "link-in", "link-out", "linkdir-out", "root", "outside.yaml"}
+		segs := []string{".", "..", "sub", "ref.yaml", "link-in", "link-out", "linkdir-out", "linkdir-deep", "root", "outside.yaml"}
 		disk := work != ""
 		var diskRoot string
 		if disk {
@@ -78,7 +78,9 @@ func init() {
 			switch r.Intn(3) {
 			case 0:
 				p = pickS(r, []string{"ref.yaml", "./sub/../ref.yaml", "sub/ref.yaml", "../outside.yaml", "sub/../../outside.yaml", "../root/../outside.yaml",
-					"../root/ref.yaml", "link-in", "link-out", "linkdir-out/outside.yaml", "../root-evil/ref.yaml", "ABS/outside.yaml", "ABS/root/ref.yaml"})
+					"../root/ref.yaml", "link-in", "link-out", "linkdir-out/outside.yaml", "../root-evil/ref.yaml", "ABS/outside.yaml", "ABS/root/ref.yaml",
+					// absolute and NOT clean: lexically inside the root, but the OS would walk through the link first
+					"ABS/root/linkdir-deep/../ref.yaml", "ABS/root/sub/../linkdir-deep/../ref.yaml", "linkdir-deep/../ref.yaml", "ABS/root/./sub/../ref.yaml"})
 			default:
 				k := 1 + r.Intn(4)
 				var ws []string
@@ -86,6 +88,9 @@ func init() {
 					ws = append(ws, pickS(r, segs))
 				}
 				p = strings.Join(ws, "/")
+				if r.Intn(4) == 0 {
+					p = "ABS/root/" + p // an absolute, uncleaned spelling
+				}
 			}
 			onDisk := disk && r.Intn(2) == 0
 			base := "/top"
@@ -110,6 +115,10 @@ func init() {
 				os.Symlink(filepath.Join("sub", "ref.yaml"), filepath.Join(root, "link-in"))
 				os.Symlink(filepath.Join("..", "outside.yaml"), filepath.Join(root, "link-out"))
 				os.Symlink("..", filepath.Join(root, "linkdir-out"))
+				// a directory link whose target's PARENT holds a file named like one inside the root
+				os.MkdirAll(filepath.Join(base, "outdir", "deep"), 0o755)
+				os.WriteFile(filepath.Join(base, "outdir", "ref.yaml"), []byte(f.content(canary)), 0o644)
+				os.Symlink(filepath.Join("..", "outdir", "deep"), filepath.Join(root, "linkdir-deep"))
 			}
 			fs.WriteFile(filepath.Join(root, "kustomization.yaml"), []byte(f.kust(p)))
 			out, err, pnc := safeBuild(func() (string, error) {
